@@ -93,13 +93,21 @@ def gen_numeral(rng, small=False):
     elif form < 0.9:    # below one
         i = rng.choice(["0", "0", "", "00"])
         f, dot = "0" * rng.choice([0, 0, 1, 2, 4]) + digs(rng.randint(1, 3), True) + "0" * rng.choice([0, 0, 1, 2]), True
-    else:               # leading zeros / single digit
+    elif form < 0.95:   # leading zeros / single digit
         i = rng.choice(["0", "00", ""]) + digs(rng.randint(1, 2), True)
         f, dot = "", False
+    elif form < 0.975:  # tiny: many zeros after the point (last-digit unit down to 1e-27)
+        i = rng.choice(["0", ""])
+        f, dot = "0" * rng.randint(12, 24) + digs(rng.randint(1, 3), True), True
+    else:               # long decimal expansion (15-20 decimals)
+        i = digs(rng.randint(1, 2), True)
+        f, dot = digs(rng.randint(15, 20)), True
     e = None
     r = rng.random()
     if r < 0.35:
         e = rng.randint(-9, 9) if not small else rng.randint(-3, 3)
+    elif r < 0.5 and not small:
+        e = rng.choice([-25, -20, -17, -16, -15, -12, 12, 15, 16, 20, 25]) + rng.randint(-2, 2)
     st = {"upper": rng.random() < 0.15, "eplus": rng.random() < 0.2, "plus": rng.random() < 0.08}
     neg = rng.random() < 0.4
     return (neg, i, f, dot, e, st)
@@ -110,7 +118,17 @@ FIXED = [(False, "200", "", False, None, {}), (True, "200", "", False, None, {})
          (False, "1", "5", True, 3, {}), (False, "1", "50", True, 3, {}), (False, "", "5", True, None, {}),
          (False, "5", "", True, None, {}), (False, "12", "3", True, -4, {}), (True, "2", "5", True, None, {}),
          (False, "9", "", False, None, {}), (False, "12300", "", False, 4, {}), (False, "20", "", True, 1, {}),
-         (False, "1000000", "", False, None, {}), (False, "0", "00001", True, None, {}), (True, "0", "5", True, None, {})]
+         (False, "1000000", "", False, None, {}), (False, "0", "00001", True, None, {}), (True, "0", "5", True, None, {}),
+         # magnitudes: last-digit unit from 1e-27 to 1e+25
+         (False, "1", "5", True, -17, {}), (True, "1", "5", True, -17, {}), (False, "15", "", False, -18, {}), (False, "3", "", False, -25, {}),
+         (False, "0", "000000000000000015", True, None, {}), (False, "2", "50", True, -20, {}), (False, "1", "5", True, 25, {}),
+         (False, "7", "", False, 22, {}), (True, "4", "25", True, 16, {}), (False, "1", "234567890123456789", True, None, {})]
+
+# zero in every spelling (falsy but valid)
+ZEROS = [(False, "0", "", False, None, {}), (False, "0", "0", True, None, {}), (False, "0", "00", True, None, {}), (True, "0", "0", True, None, {}),
+         (False, "000", "", False, None, {}), (False, "0", "", False, 3, {}), (False, "0", "0", True, -2, {}), (True, "0", "", False, None, {}),
+         (False, "0", "", True, None, {}), (False, "", "0", True, None, {}), (False, "0", "", False, -3, {}), (False, "00", "000", True, 2, {"eplus": True}),
+         (False, "0", "", False, None, {"plus": True}), (True, "0", "000", True, None, {}), (False, "0", "", False, 0, {}), (False, "0", "0", True, -20, {})]
 
 
 # ---- the real code ------------------------------------------------------------------------------------
@@ -186,7 +204,8 @@ def run(ctx: core.Check):
     ctx.rule = ("numerals are generated structurally (sign, integer digits with trailing/leading zeros, fraction digits with trailing "
                 "zeros, bare point, values below one, exponent with e/E/+) and rendered to the string Python sees; every numeral goes "
                 "through sgnumber, hedge_interpret(bare), pun.I and every hedge word, and is paired with its negation, a power-of-ten "
-                "multiple and a rewriting of the same number. Non-trivial unless the numeral is a single non-zero digit; distinct on the text.")
+                "multiple (10^-25 .. 10^25) and a rewriting of the same number; exponents from e-27 to e+27, up to 24 zeros after the point, 15-20 decimals, "
+                "and zero in 16 spellings (0, 0.0, 0.00, -0.0, 000, 0e3, 0.0e-2, -0, 0., .0, +0 ...) under every hedge. Non-trivial unless the numeral is a single non-zero digit; distinct on the text.")
     ctx.assumptions = ["character-level parsing: Pun.Hedge.parse reads the string itself (split once at e, sign, split once at ., digits, signed exponent; proved inverse to render); Python's float/int/Decimal/strip/lower remain validated by the tie (underscores, inf/nan, non-ASCII digits are outside the quantifier)",
                        "binary64 rounding is not modelled: agreement within 16 ulp of max(|x|, half-width)",
                        "sqrt of the `count` hedge is supplied by the harness", "return_type='pbox' is not covered", "the hedges `order` and `between` are not part of the statement: tie only (order of a negative number raises AssertionError, mirrored)",
@@ -195,7 +214,7 @@ def run(ctx: core.Check):
     gen_out = core.LEAN / "Pun/Gen/HedgeGen.lean"
     ctx.lean_stage(["Pun.Props.C20", "Pun.Props.C20Gen"], generators=[("hedge_interpret match table", lambda: _gen(gen_out))])
     rng = ctx.rng
-    nums = list(FIXED) + [gen_numeral(rng) for _ in range(ctx.scale(260, 9000))]
+    nums = list(FIXED) + list(ZEROS) + [gen_numeral(rng) for _ in range(ctx.scale(260, 9000))]
     reqs, meta = [], []
 
     def add(kind, n, kw=None, text=None):
@@ -211,6 +230,9 @@ def run(ctx: core.Check):
         t = render(n)
         add("sg", n, None, t)
         variants = [n, negate(n), scale(n, rng.choice([-3, -1, 1, 2, 5]))]
+        far = [k for k in (-25, -20, -17, -15, 12, 17, 25) if abs((n[4] or 0) + k) <= 30]
+        if far:
+            variants.append(scale(n, rng.choice(far)))
         sp = shift_point(n, rng)
         if sp is not None:
             variants.append(sp)
@@ -274,16 +296,18 @@ def run(ctx: core.Check):
         xf = float(x)
         if kw == "order":
             continue
+        # strict where binary64 resolves the last written digit of the numeral (else x - w may round to x: outside the model)
+        resolved = u >= 1024 * F(core.ulp(float(abs(x))))
         if not (lo <= hi):
             ctx.fail(dict(feat, check="ordered"), case, f"hedge_interpret({text!r}) = [{lo!r}, {hi!r}] has lo > hi")
         elif kw in SYMMETRIC:
             if not (lo <= xf <= hi) or not near((xf - lo) - (hi - xf), 0, max(sc, abs(lo), abs(hi))):
                 ctx.fail(dict(feat, check="contains"), case, f"hedge_interpret({text!r}) = [{lo!r}, {hi!r}] is not symmetric about the stated number {xf!r}")
         elif kw in LEFT or kw == "at most":
-            if hi != xf or not (lo < xf) or (kw == "at most" and lo != -math.inf):
+            if hi != xf or not ((lo < xf) if resolved else (lo <= xf)) or (kw == "at most" and lo != -math.inf):
                 ctx.fail(dict(feat, check="endpoint"), case, f"hedge_interpret({text!r}) = [{lo!r}, {hi!r}] must end at the stated number {xf!r}")
         elif kw in RIGHT or kw == "at least":
-            if lo != xf or not (xf < hi) or (kw == "at least" and hi != math.inf):
+            if lo != xf or not ((xf < hi) if resolved else (xf <= hi)) or (kw == "at least" and hi != math.inf):
                 ctx.fail(dict(feat, check="endpoint"), case, f"hedge_interpret({text!r}) = [{lo!r}, {hi!r}] must start at the stated number {xf!r}")
         if len(ctx.samples) < 6 and rng.random() < 0.002:
             ctx.sample({"text": text, "impl": list(impl), "model": rep})
@@ -327,6 +351,11 @@ def run(ctx: core.Check):
         if a and b and c and all(r[0][0] == "ok" for r in (a, b, c)):
             (ia, x, sc, ta), (ib, _, _, _), (ic, _, _, _) = a, b, c
             ok = ic[1] <= ib[1] <= ia[1] <= ia[2] <= ib[2] <= ic[2]
+            # strictly nested and strictly about the number wherever binary64 resolves the last digit of the numeral
+            u = F(10) ** last_digit_exp(n, True)
+            if ok and u >= 1024 * F(core.ulp(float(abs(x)))):
+                xf = float(x)
+                ok = ic[1] < ib[1] < ia[1] < xf < ia[2] < ib[2] < ic[2]
             if not ok:
                 ctx.fail({"call": "hedge_interpret", "kind": "hedge", "check": "nesting", "neg": n[0], "below_one": abs(x) < 1},
                          {"text": ta}, f"{render(n)!r}: exactly {ia[1:]} / about {ib[1:]} / around {ic[1:]} are not nested")
@@ -362,14 +391,17 @@ def _pairs(ctx, nums, results):
             t = w.split()
             groups.setdefault((t[0], (t[1] + t[2]).replace("-", "").lstrip("0")), []).append((w, r))
         for g in groups.values():
-            ref = next(((w, r) for w, r in g if r[0][0] == "ok" and r[1] != 0), None)
+            ref = next(((w, r) for w, r in g if r[0][0] == "ok"), None)
             if ref is None:
                 continue
             (w0, (i0, x0, sc0, t0)) = ref
             for w, (i, x, sc, t) in g:
-                if w == w0 or x == 0:
+                if w == w0:
                     continue
-                ratio = x / x0          # a power of ten (same digits, same sign)
+                # same digits, same sign: the numbers differ by the power of ten between their last-digit positions
+                ratio = F(10) ** (_lde(w) - _lde(w0))
+                if x0 != 0 and ratio != x / x0:
+                    raise core.InfraError(f"pair bookkeeping: {t0!r} {t!r}")
                 if i[0] != "ok":
                     continue           # reported already
                 exp_lo = F(i0[1]) * ratio if math.isfinite(i0[1]) else i0[1]
@@ -378,6 +410,12 @@ def _pairs(ctx, nums, results):
                     ctx.fail({"call": "hedge_interpret", "kind": "hedge", "check": "pow10", "kw": kw, "below_one": abs(x) < 1 or abs(x0) < 1},
                              {"text": t0, "other": t},
                              f"{t0!r} -> {i0[1:]} but {t!r} -> {i[1:]}: not the same interval multiplied by {float(ratio)!r}")
+
+
+def _lde(w):
+    """decimal exponent of the last written digit, from the wire form of a numeral"""
+    t = w.split()
+    return (0 if t[4] == "n" else int(t[4])) - (0 if t[2] == "-" else len(t[2]))
 
 
 def _gen(out):
